@@ -228,7 +228,8 @@ def run_scenario(scn, want_events=True, twin_fin=None):
             "proto": [i + 1 for i, s in enumerate(fin["status"]) if s == c.PROTOTYPE],
             "order": [i + 1 for i in fin["order"]],
         },
-        "q": [{"dx": [rk(DQ[t, j]) for t in range(n)], "res": qres[j] + 1, "self": (rows.index(Q[j]) + 1 if Q[j] in rows[:nl] else 0)} for j in range(len(Q))],
+        "q": [{"dx": [rk(DQ[t, j]) for t in range(n)], "res": qres[j] + 1, "self": (rows.index(Q[j]) + 1 if Q[j] in rows[:nl] else 0),
+               **({"fb": [i + 1 for i, f in enumerate(flags[j][0]) if f], "fa": [i + 1 for i, f in enumerate(flags[j][1]) if f]} if flags else {})} for j in range(len(Q))],
     }
     if twin_fin is not None:
         tr["tw"] = {
